@@ -161,12 +161,47 @@ def check(run, fx, tier, floors=True):
     if fx.body("font::find_good_cmap_subtable") is not None or floors:
         t06_pref(run, fx)
         t06_sib(run, fx)
+        t06_shk(run, fx, floors)
     if floors or any(b.root.endswith("legacy_symbol_char_code") for b in fx.bodies):
         t06_pua(run, fx)
     # character codes and glyph ids are not narrowed silently on the lookup side either
     import narrowing
     narrowing.rule_narrowing(run, fx, "T06-NARROW", floors=floors, roots=None, floor_n=10,
                              select=lambda b: b.file in ("src/tables/cmap.rs", "src/font.rs", "src/big5.rs", "src/macroman.rs"))
+
+
+# ---- T06-SHK: subHeaderKeys is a function of the lead byte, not the other way round --------------------------------------------------
+INVERTING = ("Iterator::find", "Iterator::position", "Iterator::rposition", "Iterator::find_map", "Iterator::rfind", "Iterator::max_by_key", "Iterator::min_by_key")
+
+
+def t06_shk(run, fx, floors=True):
+    rule = "T06-SHK"
+    run.rule(rule, "cmap format 2: subHeaderKeys maps each of the 256 first bytes to a sub-header, and several first bytes may share one sub-header "
+                   "(OpenType, cmap format 2). The table may be indexed by a byte or walked for every byte; a search through it for the first byte "
+                   "with a given key (find / position / find_map over an iterator made from sub_header_keys) inverts a many-to-one map and drops "
+                   "every other byte that uses the same sub-header")
+    import sym
+    uses = 0
+    for b in fx.bodies:
+        if b.file != "src/tables/cmap.rs" or b.exp:
+            continue
+        prov = None
+        for bi, t in b.calls():
+            p = str(t["callee"].get("path") or "")
+            if not t["args"]:
+                continue
+            prov = prov or sym.Prov(b)
+            recv = prov.op(t["args"][0])
+            if not any(x[0] == "field" and x[2] == "sub_header_keys" for x in sym.walk(recv)):
+                continue
+            uses += 1
+            if p.endswith(INVERTING):
+                run.fail(rule, "shk:inverted:%s" % b.root, "%s searches subHeaderKeys with %s: the first byte found stands for a sub-header that other first bytes may share, "
+                         "whose codes are then never produced" % (b.path, p.split("::")[-1]), b.loc(t))
+            else:
+                run.ok(rule, "%s: sub_header_keys used through %s" % (b.root, p.split("::")[-1]))
+    if floors:
+        run.floor(rule, "uses of sub_header_keys in cmap.rs", uses, 2)
 
 
 def macroman(run, fx, floors):
